@@ -116,11 +116,14 @@ def one_variant(case, scheme, mode, units, r, tg, h):
                     mism.append({'what': f'{what} {name}({bid!r})', 'got': repr(e or got), 'want': repr(want), 'signature': f'value:{sig}:{name}', 'detail': ctxs})
 
     def exact_structure(res_net, spec_net, want_ref, what, sig, altered=()):
-        """same branches in the same order; elements untouched unless the operation names them"""
-        ok = res_net.node_zero_label == naming.node(want_ref) and len(res_net.branches) == len(spec_net)
+        """the same branches (matched by identifier; the order of the list is not part of the property); elements untouched unless the operation names them"""
+        got_by_id = {rb.id: rb for rb in res_net.branches}
+        ok = (res_net.node_zero_label == naming.node(want_ref) and len(res_net.branches) == len(spec_net) and len(got_by_id) == len(res_net.branches)
+              and all(ids[sb['id']] in got_by_id for sb in spec_net))
         if ok:
-            for rb, sb in zip(res_net.branches, spec_net):
-                if rb.id != ids[sb['id']] or rb.node1 != naming.node(sb['n1']) or rb.node2 != naming.node(sb['n2']):
+            for sb in spec_net:
+                rb = got_by_id[ids[sb['id']]]
+                if rb.node1 != naming.node(sb['n1']) or rb.node2 != naming.node(sb['n2']):
                     ok = False
                 elif sb['e'] == byid[sb['id']]['e']:
                     ok = ok and rb.element == orig_elem[rb.id]
@@ -141,8 +144,8 @@ def one_variant(case, scheme, mode, units, r, tg, h):
         if res_net.node_zero_label != naming.node(case['ref']):
             problems.append('reference label changed')
         res_ids = [b.id for b in res_net.branches]
-        if [x for x in order if x in res_ids] != res_ids:
-            problems.append('surviving branches are not a subsequence of the original list')
+        if len(set(res_ids)) != len(res_ids) or any(x not in order for x in res_ids):
+            problems.append('surviving branches are not distinct branches of the original network')      # (their order in the list is not part of the property)
         m = {}
         for rb in res_net.branches:
             sb = pre.get(rb.id)
